@@ -709,6 +709,31 @@ def stored_values(ctx) -> None:
                 lazy = isinstance(v, ast.GeneratorExp) or (isinstance(v, ast.Call) and core.call_tail(v) in gens and core.call_tail(v) not in ('tuple', 'list', 'frozenset'))
                 ctx.check(not lazy, 'C08.stored', ci.ref, f'{ci.qual} stores `{core.src(v)[:60]}`' + (' - a generator: identity by address, usable once, not picklable' if lazy else ''), a, key=f'{ci.qual}:stored:{core.src(a)[:30]}')
     ctx.floor('C08.stored', n, 20)
+    # a container argument is stored as a tuple (frozenset): Window(f, [a]) and Window(f, (a,)) are one structure, and a list
+    # would make the node unhashable
+    m = 0
+    for ci in prog.classes.values():
+        if ci.module.name not in FAMILY_MODULES or '__new__' not in ci.methods:
+            continue
+        new = ci.methods['__new__']
+        containers = {a.arg for a in new.args.args + new.args.kwonlyargs if a.annotation is not None and any(k in core.src(a.annotation) for k in ('Sequence', 'Iterable', 'Collection', 'list[', 'List['))}
+        if not containers:
+            continue
+        local = {}
+        for a in core.walk_local(new):
+            if isinstance(a, ast.Assign) and len(a.targets) == 1 and isinstance(a.targets[0], ast.Name):
+                local.setdefault(a.targets[0].id, []).append(a.value)
+        for c in core.calls_in(new):
+            if not (isinstance(c.func, ast.Attribute) and c.func.attr == '__new__' and isinstance(c.func.value, ast.Call) and core.call_name(c.func.value) == 'super'):
+                continue
+            for a in c.args[1:]:
+                vals = local.get(a.id, [a]) if isinstance(a, ast.Name) else [a]
+                if not (core.names_in(a) & containers or any(core.names_in(v) & containers for v in vals)):
+                    continue
+                m += 1
+                frozen = all(isinstance(v, ast.Call) and isinstance(v.func, ast.Name) and v.func.id in ('tuple', 'frozenset') for v in vals) and not (isinstance(a, ast.Name) and a.id in containers and a.id not in local)
+                ctx.check(frozen, 'C08.stored', ci.ref, f'{ci.qual} stores the container argument behind `{core.src(a)[:40]}` as a tuple / frozenset (its type must not take part in identity)', a, key=f'{ci.qual}:frozen:{core.src(a)[:30]}')
+    ctx.floor('C08.stored-containers', m, 4)
 
 
 # constructors that may put their arguments into another order before storing them (one reason each)
